@@ -36,6 +36,9 @@ def z3_namespace() -> Dict[str, Any]:
         "z3.Implies": lambda a, b: (not _b(a)) or _b(b),
         "z3.If": lambda c, a, b: a if _b(c) else b,
         "z3.Distinct": lambda *a: EM._alldiff(_flat(a)),
+        # in this world operands are values, not terms: "is it a z3 term?" cannot be told apart here and both answers must give the
+        # operator's meaning (the term / constant distinction is Z3M-5's subject)
+        "z3.is_expr": lambda a: True,
         "z3.Sum": lambda *a: fde._sum(_flat(a), 0),
         "z3.BoolVal": lambda a, *r: _b(a),
         "z3.IntVal": lambda a, *r: a,
